@@ -20,7 +20,7 @@ lines, each answered `ok`, and decided by `validate`:
   migrate             -> replaces the configuration by `Config.migrate` of it, answers `ok`
   decodes             -> `1` | `0`
 
-Strings: `~` is the empty string; lists are comma separated, the empty value is the empty list.
+Strings: `~` is the empty string, `%20` a blank; lists are comma separated, the empty value is the empty list.
 -/
 
 abbrev KV := List (String × String)
@@ -32,7 +32,7 @@ def parseKV (fs : List String) : KV :=
     | [_] => none
     | k :: rest => some (k, "=".intercalate rest)
 
-def dec (s : String) : String := if s = "~" then "" else s
+def dec (s : String) : String := if s = "~" then "" else s.replace "%20" " "
 def getS (kv : KV) (k : String) : String := dec ((kv.lookup k).getD "")
 def getRaw (kv : KV) (k : String) : String := (kv.lookup k).getD ""
 def getB (kv : KV) (k : String) : Bool := getRaw kv k = "1"
